@@ -85,6 +85,37 @@ func VerifH_ck() {
 		verifObserve("len", uint64(len(out)))
 		verifObserve("consumed", uint64(m))
 	}
+	// outputs are independent: marshalling another message does not change an output handed out earlier
+	if err == nil {
+		saved := make([]byte, 6+vMaxPayload)
+		for i := 0; i < 6+vMaxPayload; i++ {
+			if i < len(out) {
+				saved[i] = out[i]
+			}
+		}
+		n2 := verifInt("n2")
+		verifAssume(n2 >= 0 && n2 <= max)
+		all2 := make([]byte, vMaxPayload)
+		for i := 0; i < vMaxPayload; i++ {
+			if i < max {
+				all2[i] = verifU8("c" + verifD(i))
+			}
+		}
+		inner.out = all2[:n2]
+		out2, err2 := c.Marshal(&vCodec{})
+		verifReach("second marshal")
+		verifAssert(err2 == nil && len(out2) == 6+n2, "C19: second Marshal failed or has the wrong length")
+		for i := 0; i < 6+vMaxPayload; i++ {
+			if i < len(out) {
+				verifAssert(out[i] == saved[i], "C19: an output handed out earlier changed when another message was marshalled (outputs share memory)")
+			}
+		}
+		for i := 0; i < vMaxPayload; i++ {
+			if i < n2 {
+				verifAssert(out2[6+i] == all2[i], "C19: standard encoding changed (second message)")
+			}
+		}
+	}
 	// Unmarshal delegates unchanged
 	if verifBool("unmarshalFails") {
 		inner.unErr = vErr{}
